@@ -23,17 +23,25 @@ type cell struct {
 	K       string `json:"kind"`     // wrapped | struct
 	Obs     string `json:"observer"` // "--" "L-" "-I" "LI" (Local, Internal) or "api"
 	Cache   bool   `json:"cache"`
+	Delay   bool   `json:"delayed_writes,omitempty"` // observer created with DelayCachedWrites=<db>
 	Path    string `json:"path"`
 }
 
 func (c cell) sig() string {
-	return fmt.Sprintf("%s/%s/%v/%s/%s/%s/%s/%v/%s", c.Part, c.Backend, c.Shadow, flagNames[c.F], c.H, c.K, c.Obs, c.Cache, c.Path)
+	return fmt.Sprintf("%s/%s/%v/%s/%s/%s/%s/%v%s/%s", c.Part, c.Backend, c.Shadow, flagNames[c.F], c.H, c.K, c.Obs, c.Cache, c.delayTag(), c.Path)
+}
+
+func (c cell) delayTag() string {
+	if c.Delay {
+		return "+delayed-writes"
+	}
+	return ""
 }
 
 // coord is the cell without the sampled dimensions (how, kind): the coordinates of
 // the table the property quantifies over.
 func (c cell) coord() string {
-	return fmt.Sprintf("%s/%v/%s/%s/%v/%s", c.Backend, c.Shadow, flagNames[c.F], c.Obs, c.Cache, c.Path)
+	return fmt.Sprintf("%s/%v/%s/%s/%v%s/%s", c.Backend, c.Shadow, flagNames[c.F], c.Obs, c.Cache, c.delayTag(), c.Path)
 }
 
 func (c cell) priv() (local, internal bool) {
@@ -72,6 +80,8 @@ func ifacePaths(be string, flags int, obs string) []string {
 	return p
 }
 
+var delayPaths = []string{"get", "insert", "put", "putnew", "delete", "putmany", "put-flush", "put-evict"}
+
 func apiPaths(be string) []string {
 	p := []string{"api-get", "api-query", "api-sub", "api-qsub", "api-create", "api-update", "api-insert"}
 	if isDeleter(be) {
@@ -100,6 +110,17 @@ func coordsFor(sp spec) []cell {
 	}
 	for _, p := range apiPaths(sp.Backend) {
 		out = append(out, cell{Part: "table", Backend: sp.Backend, Shadow: sp.Shadow, F: f, Obs: "api", Path: p})
+	}
+	// Non-privileged interfaces created with a read cache and DelayCachedWrites (the
+	// documentation reserves delayed writes for Local+Internal interfaces, the
+	// constructor accepts them for everybody): the write paths, the batch write and
+	// the two ways a held-back write reaches the storage later (flush, eviction).
+	if isBatcher(sp.Backend) {
+		for _, obs := range []string{"--", "L-", "-I"} {
+			for _, p := range delayPaths {
+				out = append(out, cell{Part: "table", Backend: sp.Backend, Shadow: sp.Shadow, F: f, Obs: obs, Cache: true, Delay: true, Path: p})
+			}
+		}
 	}
 	return out
 }
@@ -230,7 +251,7 @@ func (w *world) runCell(c cell) {
 	w.b.Count("cells_"+c.Part, 1)
 	w.b.DistinctS(c.sig())
 	w.b.Seen("paths", c.Path)
-	w.b.Seen("observers", fmt.Sprintf("%s cache=%v", c.Obs, c.Cache))
+	w.b.Seen("observers", fmt.Sprintf("%s cache=%v%s", c.Obs, c.Cache, c.delayTag()))
 	w.b.Seen("flagsets", flagNames[c.F])
 	w.b.Seen("flag_set_by", c.H)
 	w.b.Seen("record_kinds", c.K)
@@ -243,6 +264,13 @@ func (w *world) runCell(c cell) {
 	x.l, x.i = c.priv()
 	x.perm = permitted(x.l, x.i, c.F)
 
+	if c.Path == "put-flush" || c.Path == "put-evict" {
+		x.runLate()
+		if x.decided {
+			w.b.Count("cells_decided", 1)
+		}
+		return
+	}
 	initF := c.F
 	if c.Path == "sub-flag" {
 		initF = 0 // flagged while the observer is subscribed
@@ -260,8 +288,7 @@ func (w *world) runCell(c cell) {
 	if c.Obs == "api" {
 		x.runAPI()
 	} else {
-		o := database.NewInterface(&database.Options{Local: x.l, Internal: x.i, CacheSize: cacheSize(c.Cache)})
-		x.runIface(o)
+		x.runIface(x.newObserver())
 	}
 	if x.decided {
 		w.b.Count("cells_decided", 1)
@@ -270,6 +297,50 @@ func (w *world) runCell(c cell) {
 		w.samples++
 		w.b.Sample(map[string]any{"cell": c, "permitted": x.perm, "target_after": w.audit(x.key)})
 	}
+}
+
+const delayCacheSize = 8
+
+func (x *exec) newObserver() *database.Interface {
+	opts := &database.Options{Local: x.l, Internal: x.i, CacheSize: cacheSize(x.c.Cache)}
+	if x.c.Delay {
+		opts.CacheSize = delayCacheSize
+		opts.DelayCachedWrites = x.w.db
+	}
+	return database.NewInterface(opts)
+}
+
+// runLate: the observer (with delayed writes) puts a record under a still free key —
+// the write is only held in its write cache —, then the privileged side stores a
+// flagged record under that key, then the held-back write is brought to the storage
+// by a flush or by cache eviction. A refused observer must not replace the record.
+func (x *exec) runLate() {
+	w := x.w
+	c := x.c
+	if _, err := w.privPut(x.ctl, 0, "meta", c.K); err != nil {
+		w.b.Inconclusive("cell %s: privileged setup failed: %v", c.sig(), err)
+		return
+	}
+	o := x.newObserver()
+	ot := x.ownTok(0)
+	perr := o.Put(newRec(x.key, ot, c.K))
+	tok, err := w.privPut(x.key, c.F, c.H, c.K)
+	x.tok = tok
+	x.s0 = w.audit(x.key)
+	if perr != nil || err != nil || !x.s0.Exists || x.s0.Flags != c.F || !strings.Contains(x.s0.Data, tok) {
+		w.b.Inconclusive("cell %s: setup failed (observer put err=%v, privileged err=%v, read-back %+v)", c.sig(), perr, err, x.s0)
+		return
+	}
+	if c.Path == "put-flush" {
+		o.FlushCache()
+	} else {
+		for n := 0; n < 3*delayCacheSize; n++ {
+			_ = o.Put(newRec(fmt.Sprintf("%s:%sfill%d", w.db, x.prefix, n), x.ownTok(0), c.K))
+		}
+	}
+	// no error to look at: only the privileged read-back decides (nothing is
+	// demanded for permitted observers, whose flush is refused as well)
+	x.writeOutcome(nil, false, true, nil)
 }
 
 func cacheSize(on bool) int {
@@ -646,7 +717,11 @@ func (x *exec) runIface(o *database.Interface) {
 			err = o.PutNew(r)
 		}
 		x.hand(nil, errText(err))
-		x.writeOutcome(err, true, false, func(a snap) bool { return strings.Contains(a.Data, ot) })
+		eff := func(a snap) bool { return strings.Contains(a.Data, ot) }
+		if c.Delay {
+			eff = nil // the accepted write is only held in the observer's write cache
+		}
+		x.writeOutcome(err, true, false, eff)
 
 	case "delete":
 		err := o.Delete(x.key)
